@@ -200,6 +200,15 @@ def run(case: dict, lean: Lean) -> Outcome:
             m_as = lean.call("c15.getstate", {"variant": "asIs", "init": init}); m_rep = lean.call("c15.getstate", {"variant": "repaired", "init": init})
             if real_st not in (m_as, m_rep): corr = False; failed.append(f"pickled state {real_st} differs from the model's {m_rep}")
             elif real_st != m_rep: failed.append(f"pickled state {real_st}, specification {m_rep}")
+            # the Arrow round trip against its model (which, like the code, has no columns for an empty list)
+            init2 = dict(init, fields=[{"name": n_, "vals": [0] * len(f0)} for n_ in f0._fields])
+            m_rt = lean.call("c15.arrow_rt", {"init": init2})
+            try:
+                o = ItemList.from_arrow(fresh().to_arrow())
+                real_rt = {"len": len(o), "ordered": bool(o.ordered), "ids": [toi(x) for x in o.ids()], "fields": list(o._fields)}
+            except TypeError: real_rt = {"err": "type"}
+            except Exception as e: real_rt = {"err": type(e).__name__}
+            if real_rt != m_rt: corr = False; failed.append(f"Arrow round trip gives {real_rt}, its model {m_rt}")
         except Exception as e:
             failed.append(f"state comparison raised {type(e).__name__}")
         if case["len"] == 0: classes.append("empty list")
@@ -249,6 +258,6 @@ def run(case: dict, lean: Lean) -> Outcome:
 SPEC = CheckSpec(
     pid="C15",
     theorems=[f"LK.Persist.C15_Persist_{n}" for n in ["removal_phase_safe", "onlyFrom_load", "save_crash_safe", "save_fresh_crash_safe"]],
-    correspondence_ops=["c15.crash", "c15.getstate"],
+    correspondence_ops=["c15.crash", "c15.getstate", "c15.arrow_rt"],
     nontrivial_rule="distinct cases reaching ≥1 of: crash over fresh / existing directory × torn / clean × each load verdict; item lists (empty, string ids), collections (empty, with empty lists, differing fields), datasets (native, pickle)",
     budgets={"quick": 60, "thorough": 1500}, gen=gen, run=run, shrink=None)
